@@ -170,11 +170,19 @@ def check_normal(out, seen, cx, qt, Aref, bref, cond, v, f, where, what):
 def est_call(out, seen, cx, qt, pairs, datasets, where, sequence=False):
     """run the estimator on one dataset (calc_estimate) or a list (calc_estimate_sequence); returns result or None"""
     est = estimator()
+    arrays = [d[1] for ds in (datasets if sequence else [datasets]) for d in ds]
+    snap = [a.copy() for a in arrays]
     if sequence:
         ok, r = A.call(est.calc_estimate_sequence, qt, datasets)
     else:
         ok, r = A.call(est.calc_estimate, qt, datasets)
     out.ops += 1
+    out.count("data_snapshots_compared")
+    if any(not np.array_equal(a, b) for a, b in zip(arrays, snap)):
+        K.fail_once(out, seen, "calc_estimate%s:modifies-the-callers-data:%s" % ("_sequence" if sequence else "", cx.tomo),
+                    "%s: an empirical-distribution array handed to the estimator was changed in place" % where)
+        for a, b in zip(arrays, snap):
+            a[...] = b
     if not ok:
         K.fail_once(out, seen, "calc_estimate%s:%sraises:%s" % ("_sequence" if sequence else "", cls_of(cx, pairs), cx.tomo),
                     "%s: %s" % (where, A.fmt_exc(r)))
